@@ -220,7 +220,7 @@ func Run(ctx *common.Ctx) int {
 	for wi := range wf.All {
 		w := &wf.All[wi]
 		for _, W := range []int{1, 2, 3} {
-			for _, pol := range []int{0, 2} {
+			for _, pol := range []int{0, 2, 3} {
 				// bound 0: every Read index x kind x stickiness
 				var specs []fast.SrcSpec
 				for idx := 0; idx < w.S; idx++ {
@@ -239,7 +239,7 @@ func Run(ctx *common.Ctx) int {
 					tasks = append(tasks, mk(w, W, 0, pol, specs[lo:hi], fmt.Sprintf("part%d", c)))
 				}
 				// deviation bound 1 (thorough: 2 for Period) at selected fault indices
-				if pol == 0 && (!quick || (W == 2 && w.Name != "Factory")) {
+				if (pol == 0 || pol == 3) && (!quick || (W == 2 && w.Name != "Factory")) {
 					bound := 1
 					if !quick && w.Name == "Period" {
 						bound = 2
@@ -284,7 +284,7 @@ func Run(ctx *common.Ctx) int {
 	cov["sequential_fault_runs"] = int(evals)
 	cov["parallel_schedules"] = m.Execs
 	cov["rule"] = "sequential workflows: the source fails at every byte offset of PeriodDetect and SingleDetect(16/40/1280/4096) and at 4 offsets per sample of the 125000-byte workflows x {clean end, unexpected EOF, custom error, error together with a partial read} x {sticky, transient} x base read sizes; " +
-		"parallel workflows: fault at every Read index x 7 kinds x {sticky, transient} x W in {1,2,3} at deviation bound 0 under two default policies, and bound 1 (thorough: 2 for Period) at fault indices {0,1,s/2,s-2,s-1}; " +
+		"parallel workflows: fault at every Read index x 7 kinds x {sticky, transient} x W in {1,2,3} at deviation bound 0 under three default policies, and bound 1 (thorough: 2 for Period) at fault indices {0,1,s/2,s-2,s-1}; " +
 		"distinct = distinct (workflow, kind, sample, position class) for the sequential part plus distinct outcome signatures of the schedules"
 	cov["exhaustive"] = cov["exhaustive"].(bool) && !capped
 	return ctx.Finish("fault_enumeration", cov, []string{
